@@ -89,3 +89,45 @@ def all_options(ctx, clause, api="shexer.shaper:Shaper.__init__", skip=()):
                 x.msg = "frozen exception: " + OPTION_SITE_EXCEPTIONS[tail] + " [was: " + x.msg + "]"
         obs += o
     return obs, n
+
+
+CROSS_OPTION_ALLOWED = {
+    ("instances_cap", "limit_remote_instances"):
+        "documented override: instances_cap, when given, replaces the deprecated limit_remote_instances for remote sources",
+}
+
+
+def no_cross_option_flow(ctx, clause, api="shexer.shaper:Shaper.__init__"):
+    """A parameter named like constructor option A carries option A: no other option B flows into it (by copy).
+    One option leaking into the channel of another makes B change what only A documents."""
+    g, p, r = ctx.flow, ctx.p, ctx.r
+    init = p.func(api)
+    opts = list(init.bound_params)
+    T = {o: g.flows([g.param(init.qual, o)], labels=("copy",)) for o in opts}
+    obs, n, seen = [], 0, set()
+    for f in p.funcs.values():
+        if f is init:
+            continue
+        for prm in f.bound_params:
+            if prm not in opts:
+                continue
+            for cs in r.callers_of.get(f.qual, []):
+                if not ctx.reachable(cs.func) or cs.kind == "byname":
+                    continue
+                arg = bind_args(cs.node, f)["bound"].get(prm)
+                if arg is None:
+                    continue
+                n += 1
+                for o in opts:
+                    if o != prm and g.expr_tainted(arg, T[o], deep=False):
+                        key = "R-PLUMB|cross-option|%s->%s|%s->%s" % (o, prm, cs.func.short, f.short)
+                        if key in seen:
+                            continue
+                        seen.add(key)
+                        why = CROSS_OPTION_ALLOWED.get((o, prm))
+                        obs.append(Ob(clause, "R-PLUMB", key, cs.func.loc(cs.node), why is not None,
+                                      "option %s reaches parameter %s of %s: %s" % (o, prm, f.short, why) if why else
+                                      "option %s flows into parameter `%s` of %s (call in %s, `%s`): the value configured for %s now "
+                                      "also acts as %s" % (o, prm, f.short, cs.func.short, norm(arg)[:40], o, prm)))
+    obs.append(Ob(clause, "R-PLUMB", "R-PLUMB|cross-option|scan", "shexer:0", True, "%d same-name argument sites examined for cross-option flows" % n))
+    return obs, n
